@@ -12,6 +12,7 @@ Vocabulary (all defined in Model*.lean, which the driver executes against the Go
 import YouVerif.C13.ProofsApi
 import YouVerif.C13.ProofsIter
 import YouVerif.C13.ProofsCodec
+import YouVerif.C13.ProofsSpec
 import YouVerif.C13.ProofsDb
 import YouVerif.C13.ModelHash
 namespace YouVerif.C13
@@ -56,6 +57,47 @@ what the independent root calculator of the harness samples). -/
 theorem root_unique_among_wellformed (H : Hash) (ops : List Op) (s : Node) (hs : WF s)
     (hcontent : ∀ key, lookup s key = lookup (run ops) key) : rootHash H s = rootHash H (run ops) := by
   rw [canonical hs (wf_run ops) hcontent]
+
+/-- **The root is the standard root of the content.**  `specRoot H ps` (Spec.lean) is the root of the
+trie built from the finite map `ps` alone — the radix trie of the keys with single-child branches
+contracted, i.e. the Yellow Paper's leaf / extension / branch composition — with no reference to
+insertion, deletion or history.  For every history, and every association list `ps` that lists the
+surviving content (keys in hex form, none a prefix of another), `Trie.Hash()` equals it. -/
+theorem root_is_standard (H : Hash) (ops : List Op) (ps : Assoc) (hpf : PFA ps)
+    (hkeys : ∀ e ∈ ps, ∃ k, e.1 = hexKey k) (hcontent : ∀ k, alook ps (hexKey k) = applyMap ops k) :
+    rootHash H (run ops) = specRoot H ps := by
+  have hterm : ∀ e ∈ ps, TermLast e.1 := by
+    intro e he; obtain ⟨k, hk⟩ := hkeys e he; rw [hk]; exact termLast_hexKey k
+  obtain ⟨hw, hl⟩ := specTrie_spec hpf hterm
+  unfold specRoot
+  rw [canonical (wf_run ops) hw]
+  intro key
+  rw [hl]
+  by_cases hk : IsHexKey key
+  · obtain ⟨k, rfl⟩ := hk
+    rw [← lookupB_eq_lookup (inv_run ops), get_after, hcontent]
+  · have e1 : lookup (run ops) key = none := by
+      cases h : lookup (run ops) key with
+      | none => rfl
+      | some v => exact absurd ((inv_run ops).2 key (by simp [h])) hk
+    rw [e1]
+    unfold alook
+    cases hf : ps.find? (fun e => e.1 = key) with
+    | none => rfl
+    | some e =>
+      have hm := List.mem_of_find?_eq_some hf
+      have hp := List.find?_some hf
+      simp at hp
+      obtain ⟨k, hk'⟩ := hkeys e hm
+      exact absurd ⟨k, by rw [← hp, hk']⟩ hk
+
+/-- such a list always exists — the iteration output is one — so the statement is not vacuous: the root
+after any history is the standard root of what iteration yields. -/
+theorem root_is_standard_of_leaves (H : Hash) (ops : List Op) :
+    rootHash H (run ops) = specRoot H (leaves (run ops)) :=
+  root_is_standard H ops (leaves (run ops)) (pfa_leaves (inv_run ops))
+    (fun e he => (inv_run ops).2 e.1 (by rw [(mem_leaves _ e.1 e.2).1 he]; simp))
+    (fun k => by rw [alook_leaves, ← lookupB_eq_lookup (inv_run ops), get_after])
 
 /-! ### iteration (`leaves` = what `NewIterator(t.NodeIterator(nil))` yields, in that order) -/
 
